@@ -23,7 +23,9 @@ def plan(tier):
                         'types': 'tuple<int,int>, tuple<int,uchar,long>, pair<int,long>, tuple<pair<int,int>,int>, variant<int,long>, unique_ptr<int>, shared_ptr<int>, tuple<unique_ptr<int>,int>'})]
     corpus = [(['-DMODE_OPS'] + S, pv(1, 2, 3, 'a') + pv(1, 2, 3, 'a')), (['-DMODE_OPS'] + S, pv(0, 0, 0, '') + pv(1, 0, 0, '')), (['-DMODE_OPS'] + S, pv(1, 200, 5, 'a') + pv(1, 100, 5, 'a')),
               (['-DMODE_OPS'] + S, pv(1, 2, 1 << 40, 'b') + pv(1, 2, 3, 'a')), (['-DMODE_OPS'] + S, pv(0xffffffff, 2, 3, 'a') + pv(1, 2, 3, 'a')),
-              (['-DMODE_TRANS'] + S, pv(1, 2, 3, 'a') + pv(1, 2, 3, 'b') + pv(2, 0, 0, '')), (['-DMODE_SENS'], [1, 2, 3, 4, 5, 6, 7, 8, 0, 9, 0, 10]), (['-DMODE_SENS'], [0] * 12)]
+              (['-DMODE_TRANS'] + S, pv(1, 2, 3, 'a') + pv(1, 2, 3, 'b') + pv(2, 0, 0, '')), (['-DMODE_SENS'], [1, 2, 3, 4, 5, 6, 7, 8, 0, 9, 0, 10]), (['-DMODE_SENS'], [0] * 12),
+              # 64-bit components that differ only in the upper / only in the lower half, sign bit, all ones
+              (['-DMODE_SENS'], [1, 2, 3, 4, 5, 6, 7, 8, 1, 9, 0, 9]), (['-DMODE_SENS'], [1, 2, 3, 4, 5, 6, 7, 8, 0x80000000, 0, 0, 0]), (['-DMODE_SENS'], [0xffffffff, 0xffffffff, 0, 1, 0x7fffffff, 0x80000000, 255, 0, 0xffffffff, 0xffffffff, 0x7fffffff, 0xffffffff])]
     u = Unit('hash', 'harness/C16/h_c16.cpp', 'harness/C16/cb_c16.c', caps={'str': 4, 'vec': 2, 'ss': 4}, queries=qs, corpus=corpus)
     return Runner('C16', tier, [u],
                   bounds={'values': 'full-width symbolic int / unsigned char / long; strings of 0..%d bytes' % SL, 'pairs_triples': 'all pairs and all triples of such values'},
